@@ -152,7 +152,7 @@ pub struct SdesItem<'a> {
 }
 
 impl<'a> SdesItem<'a> {
-    const MIN_LEN: usize = 4;
+    const MIN_LEN: usize = 2;
     const VALUE_MAX_LEN: u8 = 255;
     pub const CNAME: u8 = 0x01;
     pub const NAME: u8 = 0x02;
